@@ -329,6 +329,11 @@ func RunEnum[C any](t *testing.T, prop string, next func() (C, bool), check func
 		}
 		o := safeCheck(check, c)
 		if msg := Record(prop, c, o); msg != "" {
+			if os.Getenv("VERIF_TRIAGE") != "" {
+				// development aid: list every violating case of an enumeration instead of stopping at the first
+				fmt.Printf("TRIAGE %s\n", oneLine(msg))
+				continue
+			}
 			path := SaveFailure(prop)
 			fmt.Printf("FOUND property=%s prop=%s replay=%s\n", propID, prop, path)
 			t.Fatalf("%s", msg)
@@ -403,6 +408,19 @@ func Replay(t *testing.T, rs ...Replayer) {
 		case f.Status == "known":
 			fmt.Printf("NOTE: known finding %s no longer reproduces (replay %s passes)\n", f.ID, f.Replay)
 		case f.Status == "fixed" && msg != "":
+			fmt.Printf("REPLAY-FAIL file=%s msg=%s\n", path, oneLine(msg))
+			t.Fail()
+		}
+	}
+	// cases on which the machinery once raised a false alarm (DESIGN.md, Appendix A): they must stay silent
+	fas, _ := filepath.Glob(filepath.Join(Root(), "replays", propID, "fa-*.json"))
+	sort.Strings(fas)
+	for _, path := range fas {
+		msg, err := replayOne(path, rs)
+		if err != nil {
+			fmt.Printf("REPLAY-ERROR file=%s err=%s\n", path, oneLine(err.Error()))
+			t.Fail()
+		} else if msg != "" {
 			fmt.Printf("REPLAY-FAIL file=%s msg=%s\n", path, oneLine(msg))
 			t.Fail()
 		}
